@@ -184,35 +184,69 @@ Proof. reflexivity. Qed.
 Lemma run_snoc c s l e : run c s (l ++ [e]) = fst (step c (run c s l) e).
 Proof. rewrite run_app. reflexivity. Qed.
 
-(* ------------------------------------------------------------------ total limit (no wf needed) *)
-Ltac simp := cbn [fst snd inb outb pers banned groups ccount set_banned] in *.
+(* ------------------------------------------------------------------ case analysis of the handler *)
+Ltac simp := cbn [fst snd inb outb pers banned groups ccount gone set_banned mark_gone] in *.
 
+Lemma admit_cases c s1 p :
+  admit_peer c s1 p = (mark_gone s1 (pid p), false) \/
+  (admit_peer c s1 p = (insert s1 p, true) /\ cget (ccount s1) (host p) < max_per_ip c /\ total s1 < max_peers c).
+Proof.
+  unfold admit_peer. destruct (cget (ccount s1) (host p) >=? max_per_ip c) eqn:E1; [left; reflexivity|].
+  destruct (total s1 >=? max_peers c) eqn:E2; [left; reflexivity|]. right. split; [reflexivity|lia].
+Qed.
+
+Lemma add_peer_cases c s p now :
+  (zmem (pid p) (gone s) = true /\ add_peer c s p now = (s, false)) \/
+  (zmem (pid p) (gone s) = false /\
+   ((exists e, aget (banned s) (host p) = Some e /\ now < e /\ add_peer c s p now = (mark_gone s (pid p), false)) \/
+    (exists e, aget (banned s) (host p) = Some e /\ e <= now /\
+               add_peer c s p now = admit_peer c (set_banned s (adel (banned s) (host p))) p) \/
+    (aget (banned s) (host p) = None /\ add_peer c s p now = admit_peer c s p))).
+Proof.
+  unfold add_peer. destruct (zmem (pid p) (gone s)); [left; split; reflexivity|]. right. split; [reflexivity|].
+  destruct (aget (banned s) (host p)) as [e|].
+  - destruct (now <? e) eqn:E.
+    + left. exists e. repeat split; try reflexivity. lia.
+    + right. left. exists e. repeat split; try reflexivity. lia.
+  - right. right. split; reflexivity.
+Qed.
+
+(* a state predicate kept by "disconnect", by ban-table updates and by insertion is kept by Add *)
+Lemma add_preserves (Q : st -> Prop) c s p now :
+  (forall x k, Q x -> Q (mark_gone x k)) ->
+  (forall x b, Q x -> Q (set_banned x b)) ->
+  (forall x, Q x -> cget (ccount x) (host p) < max_per_ip c -> total x < max_peers c -> Q (insert x p)) ->
+  Q s -> Q (fst (add_peer c s p now)).
+Proof.
+  intros Hg Hb Hi HQ.
+  assert (Ha : forall x, Q x -> Q (fst (admit_peer c x p))).
+  { intros x Hx. destruct (admit_cases c x p) as [E|[E [L1 L2]]]; rewrite E; cbn [fst]; auto. }
+  destruct (add_peer_cases c s p now) as [[_ E]|[_ [[e [_ [_ E]]]|[[e [_ [_ E]]]|[_ E]]]]]; rewrite E; cbn [fst]; auto.
+Qed.
+
+Lemma total_mark_gone s k : total (mark_gone s k) = total s.
+Proof. reflexivity. Qed.
+Lemma total_set_banned s b : total (set_banned s b) = total s.
+Proof. reflexivity. Qed.
+Lemma total_insert_le s p : total (insert s p) <= total s + 1.
+Proof.
+  unfold insert, total. destruct (pkind p); simp.
+  - pose proof (zlen_aset_le (inb s) (pid p) p). lia.
+  - pose proof (zlen_aset_le (outb s) (pid p) p). lia.
+  - pose proof (zlen_aset_le (pers s) (pid p) p). lia.
+Qed.
+
+(* ------------------------------------------------------------------ total limit (no wf needed) *)
 Lemma step_total c s e : 0 <= max_peers c -> total s <= max_peers c -> total (fst (step c s e)) <= max_peers c.
 Proof.
-  intros Hmp Hle. destruct e as [p now|p|h now]; cbn [step fst].
-  - unfold add_peer.
-    destruct (aget (banned s) (host p)) as [e|] eqn:Hb.
-    + destruct (now <? e); [exact Hle|].
-      set (s1 := set_banned s (adel (banned s) (host p))).
-      assert (Ht : total s1 = total s) by reflexivity.
-      destruct (cget (ccount s1) (host p) >=? max_per_ip c); [simp; lia|].
-      destruct (total s1 >=? max_peers c) eqn:E; [simp; lia|].
-      assert (Hlt : total s1 < max_peers c) by lia.
-      unfold total in *. destruct (pkind p); simp.
-      * pose proof (zlen_aset_le (inb s1) (pid p) p). lia.
-      * pose proof (zlen_aset_le (outb s1) (pid p) p). lia.
-      * pose proof (zlen_aset_le (pers s1) (pid p) p). lia.
-    + destruct (cget (ccount s) (host p) >=? max_per_ip c); [simp; lia|].
-      destruct (total s >=? max_peers c) eqn:E; [simp; lia|].
-      assert (Hlt : total s < max_peers c) by lia.
-      unfold total in *. destruct (pkind p); simp.
-      * pose proof (zlen_aset_le (inb s) (pid p) p). lia.
-      * pose proof (zlen_aset_le (outb s) (pid p) p). lia.
-      * pose proof (zlen_aset_le (pers s) (pid p) p). lia.
+  intros Hmp Hle. destruct e as [p now|p|h now|p]; cbn [step fst].
+  - apply (add_preserves (fun x => total x <= max_peers c)); auto.
+    intros x Hx _ Hlt. pose proof (total_insert_le x p). lia.
   - unfold done_peer, total in *. destruct (pkind p).
     + destruct (aget (inb s) (pid p)); simp; [|lia]. pose proof (zlen_adel_le (inb s) (pid p)). lia.
     + destruct (aget (outb s) (pid p)); simp; [|lia]. pose proof (zlen_adel_le (outb s) (pid p)). lia.
     + destruct (aget (pers s) (pid p)); simp; [|lia]. pose proof (zlen_adel_le (pers s) (pid p)). lia.
+  - exact Hle.
   - exact Hle.
 Qed.
 
@@ -260,10 +294,41 @@ Qed.
 Lemma inv_set_banned A s b : Inv A s -> Inv A (set_banned s b).
 Proof. intros [H1 H2 H3 H4 H5 H6 H7 H8]. constructor; assumption. Qed.
 
+Lemma inv_mark_gone A s k : Inv A s -> Inv A (mark_gone s k).
+Proof. intros [H1 H2 H3 H4 H5 H6 H7 H8]. constructor; assumption. Qed.
+
 Lemma inv_mono A A' s : incl A A' -> Inv A s -> Inv A' s.
 Proof.
   intros Hi [H1 H2 H3 H4 H5 H6 H7 H8].
   constructor; try assumption; eapply entries_ok_mono; eassumption.
+Qed.
+
+Lemma inv_insert A s1 p : Inv A s1 -> ~ In (pid p) (map pid A) -> Inv (p :: A) (insert s1 p).
+Proof.
+  intros H1 Hfresh.
+  assert (Hincl : incl A (p :: A)) by (intros x Hx; right; exact Hx).
+  destruct H1 as [N1 N2 N3 E1 E2 E3 C G].
+  pose proof (entries_absent _ _ _ p E1 Hfresh) as Ai.
+  pose proof (entries_absent _ _ _ p E2 Hfresh) as Ao.
+  pose proof (entries_absent _ _ _ p E3 Hfresh) as Ap.
+  assert (Hnew : forall k m, entries_ok A k m -> pkind p = k -> entries_ok (p :: A) k (aset m (pid p) p)).
+  { intros k m Hm Hk i q [Hin|Hin].
+    - inversion Hin. subst. split; [reflexivity|]. split; [reflexivity|left; reflexivity].
+    - apply In_adel in Hin. destruct Hin as [Hin _]. destruct (Hm i q Hin) as [X1 [X2 X3]].
+      split; [exact X1|]. split; [exact X2|right; exact X3]. }
+  unfold insert.
+  destruct (pkind p) eqn:K; constructor; simp;
+    try (apply nodupk_aset); try assumption;
+    try (apply Hnew; [assumption|reflexivity]);
+    try (eapply entries_ok_mono; eassumption).
+  - intros h. rewrite cget_cincr, C. rewrite !hcount_cnt, cnt_aset_absent by exact Ai.
+    rewrite <- !hcount_cnt. lia.
+  - intros h. rewrite cget_cincr, C. rewrite !hcount_cnt, cnt_aset_absent by exact Ao.
+    rewrite <- !hcount_cnt. lia.
+  - intros g. rewrite cget_cincr, G. rewrite !gcount_cnt, cnt_aset_absent by exact Ao.
+    rewrite <- !gcount_cnt. lia.
+  - intros g. rewrite cget_cincr, G. rewrite !gcount_cnt, cnt_aset_absent by exact Ap.
+    rewrite <- !gcount_cnt. lia.
 Qed.
 
 (* Add of a fresh peer object *)
@@ -272,43 +337,15 @@ Lemma inv_add c A s p now :
 Proof.
   intros HI Hfresh.
   assert (Hincl : incl A (p :: A)) by (intros x Hx; right; exact Hx).
-  unfold add_peer.
-  assert (Hgen : forall s1, Inv A s1 ->
-    Inv (p :: A) (fst (if cget (ccount s1) (host p) >=? max_per_ip c then (s1, false)
-      else if total s1 >=? max_peers c then (s1, false)
-      else match pkind p with
-      | Inbound => (mkSt (aset (inb s1) (pid p) p) (outb s1) (pers s1) (banned s1) (groups s1) (cincr (ccount s1) (host p)), true)
-      | Persistent => (mkSt (inb s1) (outb s1) (aset (pers s1) (pid p) p) (banned s1) (cincr (groups s1) (group p)) (ccount s1), true)
-      | Outbound => (mkSt (inb s1) (aset (outb s1) (pid p) p) (pers s1) (banned s1) (cincr (groups s1) (group p)) (cincr (ccount s1) (host p)), true)
-      end))).
-  { intros s1 H1.
-    destruct (cget (ccount s1) (host p) >=? max_per_ip c); [apply (inv_mono A); assumption|].
-    destruct (total s1 >=? max_peers c); [apply (inv_mono A); assumption|].
-    destruct H1 as [N1 N2 N3 E1 E2 E3 C G].
-    pose proof (entries_absent _ _ _ p E1 Hfresh) as Ai.
-    pose proof (entries_absent _ _ _ p E2 Hfresh) as Ao.
-    pose proof (entries_absent _ _ _ p E3 Hfresh) as Ap.
-    assert (Hnew : forall k m, entries_ok A k m -> pkind p = k -> entries_ok (p :: A) k (aset m (pid p) p)).
-    { intros k m Hm Hk i q [Hin|Hin].
-      - inversion Hin. subst. split; [reflexivity|]. split; [reflexivity|left; reflexivity].
-      - apply In_adel in Hin. destruct Hin as [Hin _]. destruct (Hm i q Hin) as [X1 [X2 X3]].
-        split; [exact X1|]. split; [exact X2|right; exact X3]. }
-    destruct (pkind p) eqn:K; cbn [fst]; constructor; simp;
-      try (apply nodupk_aset); try assumption;
-      try (apply Hnew; [assumption|reflexivity]);
-      try (eapply entries_ok_mono; eassumption).
-    - intros h. rewrite cget_cincr, C. rewrite !hcount_cnt, cnt_aset_absent by exact Ai.
-      rewrite <- !hcount_cnt. lia.
-    - intros h. rewrite cget_cincr, C. rewrite !hcount_cnt, cnt_aset_absent by exact Ao.
-      rewrite <- !hcount_cnt. lia.
-    - intros g. rewrite cget_cincr, G. rewrite !gcount_cnt, cnt_aset_absent by exact Ao.
-      rewrite <- !gcount_cnt. lia.
-    - intros g. rewrite cget_cincr, G. rewrite !gcount_cnt, cnt_aset_absent by exact Ap.
-      rewrite <- !gcount_cnt. lia. }
-  destruct (aget (banned s) (host p)) as [e|].
-  - destruct (now <? e); [apply (inv_mono A); assumption|].
-    apply Hgen. apply inv_set_banned. exact HI.
-  - apply Hgen. exact HI.
+  assert (Ha : forall x, Inv A x -> Inv (p :: A) (fst (admit_peer c x p))).
+  { intros x Hx. destruct (admit_cases c x p) as [E|[E _]]; rewrite E; cbn [fst].
+    - apply (inv_mono A); [exact Hincl|]. apply inv_mark_gone. exact Hx.
+    - apply inv_insert; assumption. }
+  destruct (add_peer_cases c s p now) as [[_ E]|[_ [[e [_ [_ E]]]|[[e [_ [_ E]]]|[_ E]]]]]; rewrite E; cbn [fst].
+  - apply (inv_mono A); assumption.
+  - apply (inv_mono A); [exact Hincl|]. apply inv_mark_gone. exact HI.
+  - apply Ha. apply inv_set_banned. exact HI.
+  - apply Ha. exact HI.
 Qed.
 
 (* Done of a peer object that is the only one with its pid among those added *)
@@ -343,15 +380,16 @@ Qed.
 
 (* well-formedness, prefix-wise *)
 Lemma added_app l1 l2 : added (l1 ++ l2) = added l1 ++ added l2.
-Proof. induction l1 as [|[p t|p|h t] l IH]; simpl; rewrite ?IH; reflexivity. Qed.
+Proof. induction l1 as [|[p t|p|h t|p] l IH]; simpl; rewrite ?IH; reflexivity. Qed.
 Lemma mentioned_app l1 l2 : mentioned (l1 ++ l2) = mentioned l1 ++ mentioned l2.
-Proof. induction l1 as [|[p t|p|h t] l IH]; simpl; rewrite ?IH; reflexivity. Qed.
+Proof. induction l1 as [|[p t|p|h t|p] l IH]; simpl; rewrite ?IH; reflexivity. Qed.
 Lemma added_mentioned l p : In p (added l) -> In p (mentioned l).
 Proof.
-  induction l as [|[q t|q|h t] l IH]; simpl; [tauto| | |].
+  induction l as [|[q t|q|h t|q] l IH]; simpl; [tauto| | | |].
   - intros [H|H]; [left; exact H|right; exact (IH H)].
   - intros H. right. exact (IH H).
   - exact IH.
+  - intros H. right. exact (IH H).
 Qed.
 
 Lemma NoDup_app_l {A} (l1 l2 : list A) : NoDup (l1 ++ l2) -> NoDup l1.
@@ -368,22 +406,33 @@ Proof.
   - intros p q Hp Hq. apply H2; rewrite mentioned_app; apply in_or_app; left; assumption.
 Qed.
 
+Lemma wf_snoc_add l p now : wf (l ++ [Add p now]) -> ~ In (pid p) (map pid (added l)).
+Proof.
+  intros [Hnd _]. rewrite added_app, map_app in Hnd. simpl in Hnd.
+  apply NoDup_remove_2 in Hnd. rewrite app_nil_r in Hnd. exact Hnd.
+Qed.
+
+Lemma wf_snoc_uniq l e p : wf (l ++ [e]) -> In p (mentioned [e]) ->
+  forall q, In q (added l) -> pid q = pid p -> q = p.
+Proof.
+  intros [_ Huq] Hp q Hq Hpid. apply Huq; [| |exact Hpid]; rewrite mentioned_app; apply in_or_app.
+  - left. apply added_mentioned. exact Hq.
+  - right. exact Hp.
+Qed.
+
 Theorem inv_run c evs : wf evs -> Inv (added evs) (run c init evs).
 Proof.
   induction evs as [|e l IH] using rev_ind; intros Hwf.
   - exact inv_init.
   - pose proof (wf_prefix _ _ Hwf) as Hwl. specialize (IH Hwl).
-    rewrite run_snoc, added_app. destruct Hwf as [Hnd Huq].
-    destruct e as [p now|p|h now]; simpl.
+    rewrite run_snoc, added_app.
+    destruct e as [p now|p|h now|p]; simpl.
     + apply (inv_mono (p :: added l)); [intros x [Hx|Hx]; apply in_or_app; [right; left; exact Hx|left; exact Hx]|].
-      apply inv_add; [exact IH|].
-      rewrite added_app, map_app in Hnd. simpl in Hnd.
-      apply NoDup_remove_2 in Hnd. rewrite app_nil_r in Hnd. exact Hnd.
+      apply inv_add; [exact IH|]. exact (wf_snoc_add _ _ _ Hwf).
     + rewrite app_nil_r. apply inv_done; [exact IH|].
-      intros q Hq Hpid. apply Huq; [| |exact Hpid]; rewrite mentioned_app; apply in_or_app.
-      * left. apply added_mentioned. exact Hq.
-      * right. left. reflexivity.
+      apply (wf_snoc_uniq l (Done p) p Hwf). left. reflexivity.
     + rewrite app_nil_r. apply inv_set_banned. exact IH.
+    + rewrite app_nil_r. apply inv_mark_gone. exact IH.
 Qed.
 
 (* the per-host counter equals the number of admitted peers of that host that count against the
@@ -397,35 +446,26 @@ Theorem group_count_exact c evs g :
 Proof. intros Hwf. exact (inv_gc _ _ (inv_run c evs Hwf) g). Qed.
 
 (* ------------------------------------------------------------------ per-host limit *)
-(* the counter itself never exceeds the limit (any history) *)
+Lemma ccount_insert s p h : cget (ccount (insert s p)) h <= cget (ccount s) h + (if host p =? h then 1 else 0).
+Proof.
+  unfold insert. destruct (pkind p); simp; rewrite ?cget_cincr; destruct (host p =? h); lia.
+Qed.
+
 Lemma step_ccount_le c s e :
   0 <= max_per_ip c -> (forall h, cget (ccount s) h <= max_per_ip c) ->
   forall h, cget (ccount (fst (step c s e))) h <= max_per_ip c.
 Proof.
-  intros Hm Hle h. destruct e as [p now|p|h' now]; cbn [step fst].
-  - unfold add_peer.
-    assert (Hgen : forall s1, ccount s1 = ccount s ->
-      cget (ccount (fst (if cget (ccount s1) (host p) >=? max_per_ip c then (s1, false)
-        else if total s1 >=? max_peers c then (s1, false)
-        else match pkind p with
-        | Inbound => (mkSt (aset (inb s1) (pid p) p) (outb s1) (pers s1) (banned s1) (groups s1) (cincr (ccount s1) (host p)), true)
-        | Persistent => (mkSt (inb s1) (outb s1) (aset (pers s1) (pid p) p) (banned s1) (cincr (groups s1) (group p)) (ccount s1), true)
-        | Outbound => (mkSt (inb s1) (aset (outb s1) (pid p) p) (pers s1) (banned s1) (cincr (groups s1) (group p)) (cincr (ccount s1) (host p)), true)
-        end))) h <= max_per_ip c).
-    { intros s1 Hc. specialize (Hle h).
-      destruct (cget (ccount s1) (host p) >=? max_per_ip c) eqn:E1; [simp; rewrite Hc; exact Hle|].
-      destruct (total s1 >=? max_peers c); [simp; rewrite Hc; exact Hle|].
-      destruct (pkind p); simp; rewrite ?cget_cincr, ?Hc in *;
-        try (destruct (host p =? h) eqn:E2; [apply Z.eqb_eq in E2; subst h; lia|lia]). }
-    destruct (aget (banned s) (host p)) as [e|].
-    + destruct (now <? e); [simp; apply Hle|]. apply Hgen. reflexivity.
-    + apply Hgen. reflexivity.
-  - unfold done_peer. specialize (Hle h).
+  intros Hm Hle. destruct e as [p now|p|h' now|p]; cbn [step fst].
+  - apply (add_preserves (fun x => forall h, cget (ccount x) h <= max_per_ip c)); auto.
+    intros x Hx Hlt _ h. pose proof (ccount_insert x p h) as Hi. specialize (Hx h).
+    destruct (host p =? h) eqn:E; [apply Z.eqb_eq in E; subst h; lia|lia].
+  - intros h. unfold done_peer. specialize (Hle h).
     destruct (pkind p).
     + destruct (aget (inb s) (pid p)); simp; [|exact Hle]. rewrite cget_cdecr. destruct (host p =? h); lia.
     + destruct (aget (outb s) (pid p)); simp; [|exact Hle]. rewrite cget_cdecr. destruct (host p =? h); lia.
     + destruct (aget (pers s) (pid p)); simp; exact Hle.
-  - simp. apply Hle.
+  - exact Hle.
+  - exact Hle.
 Qed.
 
 Lemma ccount_le_max c evs h : 0 <= max_per_ip c -> cget (ccount (run c init evs)) h <= max_per_ip c.
@@ -442,14 +482,6 @@ Proof.
 Qed.
 
 (* ------------------------------------------------------------------ bans *)
-Lemma time_mono_weaken lo lo' l : lo' <= lo -> time_mono lo l -> time_mono lo' l.
-Proof.
-  revert lo lo'. induction l as [|e t IH]; simpl; intros lo lo' Hle H; [exact I|].
-  destruct (ev_time e) as [x|].
-  - destruct H as [H1 H2]. split; [lia|exact H2].
-  - exact (IH _ _ Hle H).
-Qed.
-
 Lemma time_mono_last lo l p now : time_mono lo (l ++ [Add p now]) -> lo <= now.
 Proof.
   revert lo. induction l as [|e t IH]; simpl; intros lo H.
@@ -459,34 +491,43 @@ Proof.
     + exact (IH _ H).
 Qed.
 
-(* banned field after one step, for a host other than the one touched *)
+Lemma banned_insert s p : banned (insert s p) = banned s.
+Proof. unfold insert. destruct (pkind p); reflexivity. Qed.
+
+Lemma admit_banned c s1 p : banned (fst (admit_peer c s1 p)) = banned s1.
+Proof. destruct (admit_cases c s1 p) as [E|[E _]]; rewrite E; cbn [fst]; [reflexivity|apply banned_insert]. Qed.
+
+(* banned field after an Add, for a host other than the peer's *)
 Lemma add_banned_other c s p now h :
   host p <> h -> aget (banned (fst (add_peer c s p now))) h = aget (banned s) h.
 Proof.
-  intros Hne. unfold add_peer.
-  assert (Hgen : forall s1, aget (banned s1) h = aget (banned s) h ->
-    aget (banned (fst (if cget (ccount s1) (host p) >=? max_per_ip c then (s1, false)
-      else if total s1 >=? max_peers c then (s1, false)
-      else match pkind p with
-      | Inbound => (mkSt (aset (inb s1) (pid p) p) (outb s1) (pers s1) (banned s1) (groups s1) (cincr (ccount s1) (host p)), true)
-      | Persistent => (mkSt (inb s1) (outb s1) (aset (pers s1) (pid p) p) (banned s1) (cincr (groups s1) (group p)) (ccount s1), true)
-      | Outbound => (mkSt (inb s1) (aset (outb s1) (pid p) p) (pers s1) (banned s1) (cincr (groups s1) (group p)) (cincr (ccount s1) (host p)), true)
-      end))) h = aget (banned s) h).
-  { intros s1 H1.
-    destruct (cget (ccount s1) (host p) >=? max_per_ip c); [exact H1|].
-    destruct (total s1 >=? max_peers c); [exact H1|].
-    destruct (pkind p); exact H1. }
-  destruct (aget (banned s) (host p)) as [e|].
-  - destruct (now <? e); [reflexivity|]. apply Hgen. simp. apply aget_adel_other. congruence.
-  - apply Hgen. reflexivity.
+  intros Hne.
+  destruct (add_peer_cases c s p now) as [[_ E]|[_ [[e [_ [_ E]]]|[[e [_ [_ E]]]|[_ E]]]]]; rewrite E; cbn [fst];
+    rewrite ?admit_banned; simp; try reflexivity.
+  apply aget_adel_other. congruence.
 Qed.
 
-Lemma add_rejected_when_banned c s p now e :
-  aget (banned s) (host p) = Some e -> now < e -> add_peer c s p now = (s, false).
+(* an entry of the ban table after an Add was there before *)
+Lemma add_banned_sub c s p now h e :
+  aget (banned (fst (add_peer c s p now))) h = Some e -> aget (banned s) h = Some e.
 Proof.
-  intros Hb Hlt. unfold add_peer. rewrite Hb.
-  assert (E : (now <? e) = true) by (apply Z.ltb_lt; exact Hlt). rewrite E. reflexivity.
+  destruct (add_peer_cases c s p now) as [[_ E]|[_ [[e' [_ [_ E]]]|[[e' [_ [_ E]]]|[_ E]]]]]; rewrite E; cbn [fst];
+    rewrite ?admit_banned; simp; auto.
+  destruct (Z.eq_dec h (host p)) as [X|X].
+  - subst h. rewrite aget_adel_same. discriminate.
+  - rewrite aget_adel_other by exact X. auto.
 Qed.
+
+Lemma add_when_banned c s p now e :
+  aget (banned s) (host p) = Some e -> now < e ->
+  snd (add_peer c s p now) = false /\ books (fst (add_peer c s p now)) = books s.
+Proof.
+  intros Hb Hlt. unfold add_peer. destruct (zmem (pid p) (gone s)); [split; reflexivity|].
+  rewrite Hb. assert (E : (now <? e) = true) by (apply Z.ltb_lt; exact Hlt). rewrite E. split; reflexivity.
+Qed.
+
+Lemma books_banned s s' : books s' = books s -> banned s' = banned s.
+Proof. unfold books. intros H. inversion H. reflexivity. Qed.
 
 Lemma done_banned s p : banned (done_peer s p) = banned s.
 Proof.
@@ -503,16 +544,19 @@ Lemma ban_persists c h t0 p now :
   forall evs s lo e,
     aget (banned s) h = Some e -> t0 + ban_dur c <= e -> t0 <= lo ->
     time_mono lo (evs ++ [Add p now]) ->
-    step c (run c s evs) (Add p now) = (run c s evs, false).
+    snd (step c (run c s evs) (Add p now)) = false /\
+    books (fst (step c (run c s evs) (Add p now))) = books (run c s evs).
 Proof.
   intros Hh Hnow. induction evs as [|ev l IH]; intros s lo e Hb He Hlo Hm.
-  - simpl. apply (add_rejected_when_banned c s p now e); [rewrite Hh; exact Hb|lia].
+  - simpl. apply (add_when_banned c s p now e); [rewrite Hh; exact Hb|lia].
   - rewrite run_cons. change ((ev :: l) ++ [Add p now]) with (ev :: (l ++ [Add p now])) in Hm.
-    destruct ev as [q t|q|h' t]; cbn [time_mono ev_time] in Hm.
+    destruct ev as [q t|q|h' t|q]; cbn [time_mono ev_time] in Hm.
     + destruct Hm as [Hm1 Hm2]. pose proof (time_mono_last _ _ _ _ Hm2) as Hle.
       cbn [step]. destruct (Z.eq_dec (host q) h) as [Heq|Hne].
-      * rewrite (add_rejected_when_banned c s q t e); [|rewrite Heq; exact Hb|lia].
-        cbn [fst]. apply (IH s t e); try assumption; lia.
+      * assert (X : aget (banned s) (host q) = Some e) by (rewrite Heq; exact Hb).
+        destruct (add_when_banned c s q t e X ltac:(lia)) as [_ Hbk].
+        apply (IH _ t e); try assumption; [|lia].
+        rewrite (books_banned _ _ Hbk). exact Hb.
       * apply (IH _ t e); try assumption; [|lia].
         rewrite add_banned_other by exact Hne. exact Hb.
     + cbn [step fst]. apply (IH _ lo e); try assumption. rewrite done_banned. exact Hb.
@@ -522,16 +566,17 @@ Proof.
         simp. apply aget_aset_same.
       * apply (IH _ t e); try assumption; [|lia].
         simp. rewrite aget_aset_other by congruence. exact Hb.
+    + cbn [step fst]. apply (IH _ lo e); try assumption.
 Qed.
 
 (* no peer of a banned host is admitted before the ban duration has elapsed: whatever happened
    before the ban (evs1) and whatever happens between the ban and the Add (evs2, clock readings not
-   going backwards), the Add is refused and leaves the state untouched *)
+   going backwards), the Add is refused and leaves the admission bookkeeping untouched *)
 Theorem banned_not_admitted_before_expiry c evs1 evs2 h t0 p now :
   host p = h -> now < t0 + ban_dur c ->
   time_mono t0 (evs2 ++ [Add p now]) ->
   let s := run c init (evs1 ++ Ban h t0 :: evs2) in
-  step c s (Add p now) = (s, false).
+  snd (step c s (Add p now)) = false /\ books (fst (step c s (Add p now))) = books s.
 Proof.
   intros Hh Hnow Hm s. subst s.
   rewrite run_app, run_cons. cbn [step fst].
@@ -548,86 +593,120 @@ Proof.
   - rewrite run_snoc in H.
     assert (Hold : aget (banned (run c init l)) h = Some e -> exists t0, In (Ban h t0) (l ++ [ev]) /\ e = t0 + ban_dur c).
     { intros H0. destruct (IH _ _ H0) as [t0 [X1 X2]]. exists t0. split; [apply in_or_app; left; exact X1|exact X2]. }
-    destruct ev as [q t|q|h' t]; cbn [step fst] in H.
-    + destruct (Z.eq_dec (host q) h) as [Heq|Hne].
-      * apply Hold. revert H. unfold add_peer.
-        destruct (aget (banned (run c init l)) (host q)) as [e'|] eqn:Hb.
-        -- destruct (t <? e').
-           ++ cbn [fst]. intros H. exact H.
-           ++ set (s1 := set_banned (run c init l) (adel (banned (run c init l)) (host q))).
-              assert (Hn : aget (banned s1) h = None) by (subst s1; simp; rewrite Heq; apply aget_adel_same).
-              destruct (cget (ccount s1) (host q) >=? max_per_ip c); [cbn [fst]; congruence|].
-              destruct (total s1 >=? max_peers c); [cbn [fst]; congruence|].
-              destruct (pkind q); cbn [fst banned]; congruence.
-        -- destruct (cget (ccount (run c init l)) (host q) >=? max_per_ip c); [cbn [fst]; auto|].
-           destruct (total (run c init l) >=? max_peers c); [cbn [fst]; auto|].
-           destruct (pkind q); cbn [fst banned]; auto.
-      * rewrite add_banned_other in H by exact Hne. apply Hold. exact H.
+    destruct ev as [q t|q|h' t|q]; cbn [step fst] in H.
+    + apply Hold. exact (add_banned_sub _ _ _ _ _ _ H).
     + rewrite done_banned in H. apply Hold. exact H.
     + unfold ban_host in H. simp.
       destruct (Z.eq_dec h' h) as [Heq|Hne].
       * subst h'. rewrite aget_aset_same in H. inversion H. exists t. split; [apply in_or_app; right; left; reflexivity|reflexivity].
       * rewrite aget_aset_other in H by congruence. apply Hold. exact H.
+    + apply Hold. exact H.
+Qed.
+
+(* a peer object is disconnected only by a Disc event or by an Add that refused it *)
+Lemma zmem_cons k x l : zmem k (x :: l) = (k =? x) || zmem k l.
+Proof. reflexivity. Qed.
+
+Lemma gone_insert s p : gone (insert s p) = gone s.
+Proof. unfold insert. destruct (pkind p); reflexivity. Qed.
+
+Lemma add_gone c s p now k :
+  zmem k (gone (fst (add_peer c s p now))) = true -> zmem k (gone s) = true \/ k = pid p.
+Proof.
+  assert (Ha : forall x, gone x = gone s -> zmem k (gone (fst (admit_peer c x p))) = true -> zmem k (gone s) = true \/ k = pid p).
+  { intros x Hx. destruct (admit_cases c x p) as [E|[E _]]; rewrite E; cbn [fst].
+    - simp. rewrite zmem_cons, Hx. intros H. apply orb_true_iff in H. destruct H as [H|H]; [right; apply Z.eqb_eq; exact H|left; exact H].
+    - rewrite gone_insert, Hx. auto. }
+  destruct (add_peer_cases c s p now) as [[_ E]|[_ [[e [_ [_ E]]]|[[e [_ [_ E]]]|[_ E]]]]]; rewrite E; cbn [fst].
+  - auto.
+  - simp. rewrite zmem_cons. intros H. apply orb_true_iff in H. destruct H as [H|H]; [right; apply Z.eqb_eq; exact H|left; exact H].
+  - apply Ha. reflexivity.
+  - apply Ha. reflexivity.
+Qed.
+
+Lemma done_gone s p : gone (done_peer s p) = gone s.
+Proof.
+  unfold done_peer. destruct (pkind p).
+  - destruct (aget (inb s) (pid p)); reflexivity.
+  - destruct (aget (outb s) (pid p)); reflexivity.
+  - destruct (aget (pers s) (pid p)); reflexivity.
+Qed.
+
+Lemma gone_origin c evs k :
+  zmem k (gone (run c init evs)) = true ->
+  exists q, pid q = k /\ (In (Disc q) evs \/ In q (added evs)).
+Proof.
+  induction evs as [|ev l IH] using rev_ind; intros H; [discriminate|].
+  rewrite run_snoc in H.
+  assert (Hold : zmem k (gone (run c init l)) = true -> exists q, pid q = k /\ (In (Disc q) (l ++ [ev]) \/ In q (added (l ++ [ev])))).
+  { intros H0. destruct (IH H0) as [q [X1 X2]]. exists q. split; [exact X1|].
+    rewrite added_app. destruct X2 as [X2|X2]; [left|right]; apply in_or_app; left; exact X2. }
+  destruct ev as [q t|q|h' t|q]; cbn [step fst] in H.
+  - destruct (add_gone _ _ _ _ _ H) as [X|X]; [apply Hold; exact X|].
+    exists q. split; [congruence|]. right. rewrite added_app. apply in_or_app. right. left. reflexivity.
+  - rewrite done_gone in H. apply Hold. exact H.
+  - apply Hold. exact H.
+  - simp. rewrite zmem_cons in H. apply orb_true_iff in H. destruct H as [H|H]; [|apply Hold; exact H].
+    apply Z.eqb_eq in H. exists q. split; [congruence|]. left. apply in_or_app. right. left. reflexivity.
 Qed.
 
 (* ... while it is admitted again afterwards, and admission is not wedged: when every ban of the
    host has run out, fewer than max_per_ip counted peers of the host are actually admitted and fewer
-   than max_peers in total, a new peer object IS admitted *)
+   than max_peers in total, a new peer object that is still connected IS admitted *)
 Theorem admitted_after_expiry c evs p now :
   wf (evs ++ [Add p now]) ->
+  (forall q, In (Disc q) evs -> pid q <> pid p) ->
   (forall t0, In (Ban (host p) t0) evs -> t0 + ban_dur c <= now) ->
   counted_of_host (run c init evs) (host p) < max_per_ip c ->
   total (run c init evs) < max_peers c ->
   snd (step c (run c init evs) (Add p now)) = true /\
   admitted (fst (step c (run c init evs) (Add p now))) p.
 Proof.
-  intros Hwf Hb Hc Ht.
+  intros Hwf Hconn Hb Hc Ht.
   pose proof (wf_prefix _ _ Hwf) as Hwl.
   rewrite <- (conn_count_exact c evs (host p) Hwl) in Hc.
   set (s := run c init evs) in *.
-  cbn [step]. unfold add_peer.
-  assert (Hgen : forall s1, ccount s1 = ccount s -> total s1 = total s ->
-    let r := (if cget (ccount s1) (host p) >=? max_per_ip c then (s1, false)
-      else if total s1 >=? max_peers c then (s1, false)
-      else match pkind p with
-      | Inbound => (mkSt (aset (inb s1) (pid p) p) (outb s1) (pers s1) (banned s1) (groups s1) (cincr (ccount s1) (host p)), true)
-      | Persistent => (mkSt (inb s1) (outb s1) (aset (pers s1) (pid p) p) (banned s1) (cincr (groups s1) (group p)) (ccount s1), true)
-      | Outbound => (mkSt (inb s1) (aset (outb s1) (pid p) p) (pers s1) (banned s1) (cincr (groups s1) (group p)) (cincr (ccount s1) (host p)), true)
-      end) in snd r = true /\ admitted (fst r) p).
-  { intros s1 E1 E2 r. subst r. rewrite E1, E2.
+  assert (Hng : zmem (pid p) (gone s) = false).
+  { destruct (zmem (pid p) (gone s)) eqn:G; [|reflexivity]. exfalso.
+    destruct (gone_origin c evs _ G) as [q [Q1 [Q2|Q2]]].
+    - exact (Hconn q Q2 Q1).
+    - apply (wf_snoc_add _ _ _ Hwf). rewrite <- Q1. apply in_map. exact Q2. }
+  assert (Ha : forall x, ccount x = ccount s -> total x = total s ->
+             snd (admit_peer c x p) = true /\ admitted (fst (admit_peer c x p)) p).
+  { intros x E1 E2. unfold admit_peer. rewrite E1, E2.
     assert (X1 : (cget (ccount s) (host p) >=? max_per_ip c) = false) by lia.
     assert (X2 : (total s >=? max_peers c) = false) by lia.
-    rewrite X1, X2. unfold admitted.
-    destruct (pkind p); cbn [fst snd inb outb pers]; (split; [reflexivity|apply aget_aset_same]). }
-  destruct (aget (banned s) (host p)) as [e|] eqn:Hbe.
-  - destruct (banned_origin c evs _ _ Hbe) as [t0 [X1 X2]]. specialize (Hb _ X1).
-    assert (E : (now <? e) = false) by lia. rewrite E. apply Hgen; reflexivity.
-  - apply Hgen; reflexivity.
+    rewrite X1, X2. cbn [fst snd]. split; [reflexivity|].
+    unfold admitted, insert. destruct (pkind p); cbn [inb outb pers]; apply aget_aset_same. }
+  cbn [step].
+  destruct (add_peer_cases c s p now) as [[G _]|[_ [[e [Hbe [Hlt _]]]|[[e [_ [_ E]]]|[_ E]]]]].
+  - congruence.
+  - exfalso. destruct (banned_origin c evs _ _ Hbe) as [t0 [X1 X2]]. specialize (Hb _ X1). lia.
+  - rewrite E. apply Ha; reflexivity.
+  - rewrite E. apply Ha; reflexivity.
 Qed.
 
 (* ------------------------------------------------------------------ counters return to zero *)
 Definition amap (k : kind) (s : st) : list (Z * peer) :=
   match k with Inbound => inb s | Outbound => outb s | Persistent => pers s end.
 
+Lemma insert_amap s p k : amap k (insert s p) = amap k s \/ amap k (insert s p) = aset (amap k s) (pid p) p.
+Proof. unfold insert. destruct (pkind p); destruct k; cbn [amap inb outb pers]; auto. Qed.
+
 Lemma add_amap c s p now k :
-  amap k (fst (add_peer c s p now)) = amap k s \/ amap k (fst (add_peer c s p now)) = aset (amap k s) (pid p) p.
+  amap k (fst (add_peer c s p now)) = amap k s \/
+  (zmem (pid p) (gone s) = false /\ amap k (fst (add_peer c s p now)) = aset (amap k s) (pid p) p).
 Proof.
-  unfold add_peer.
-  assert (Hgen : forall s1, amap k s1 = amap k s ->
-    let r := (if cget (ccount s1) (host p) >=? max_per_ip c then (s1, false)
-      else if total s1 >=? max_peers c then (s1, false)
-      else match pkind p with
-      | Inbound => (mkSt (aset (inb s1) (pid p) p) (outb s1) (pers s1) (banned s1) (groups s1) (cincr (ccount s1) (host p)), true)
-      | Persistent => (mkSt (inb s1) (outb s1) (aset (pers s1) (pid p) p) (banned s1) (cincr (groups s1) (group p)) (ccount s1), true)
-      | Outbound => (mkSt (inb s1) (aset (outb s1) (pid p) p) (pers s1) (banned s1) (cincr (groups s1) (group p)) (cincr (ccount s1) (host p)), true)
-      end) in amap k (fst r) = amap k s \/ amap k (fst r) = aset (amap k s) (pid p) p).
-  { intros s1 E r. subst r.
-    destruct (cget (ccount s1) (host p) >=? max_per_ip c); [left; exact E|].
-    destruct (total s1 >=? max_peers c); [left; exact E|].
-    destruct (pkind p); destruct k; cbn [fst amap inb outb pers] in *; rewrite ?E; auto. }
-  destruct (aget (banned s) (host p)) as [e|].
-  - destruct (now <? e); [left; reflexivity|]. apply Hgen. destruct k; reflexivity.
-  - apply Hgen. reflexivity.
+  assert (Ha : forall x, amap k x = amap k s ->
+     amap k (fst (admit_peer c x p)) = amap k s \/ amap k (fst (admit_peer c x p)) = aset (amap k s) (pid p) p).
+  { intros x Hx. destruct (admit_cases c x p) as [E|[E _]]; rewrite E; cbn [fst].
+    - left. destruct k; exact Hx.
+    - rewrite <- Hx. apply insert_amap. }
+  destruct (add_peer_cases c s p now) as [[_ E]|[G [[e [_ [_ E]]]|[[e [_ [_ E]]]|[_ E]]]]]; rewrite E; cbn [fst].
+  - left. reflexivity.
+  - left. destruct k; reflexivity.
+  - destruct (Ha (set_banned s (adel (banned s) (host p)))) as [X|X]; [destruct k; reflexivity|left; exact X|right; split; assumption].
+  - destruct (Ha s eq_refl) as [X|X]; [left; exact X|right; split; assumption].
 Qed.
 
 Lemma done_amap s p k :
@@ -647,37 +726,79 @@ Proof.
   - destruct (aget (pers s) (pid p)) eqn:G; cbn [pers]; [apply aget_adel_same|exact G].
 Qed.
 
-Lemma absent_stays c k i l : forall s,
-  aget (amap k s) i = None -> ~ In i (map pid (added l)) -> aget (amap k (run c s l)) i = None.
+Lemma inv_amap A s k : Inv A s -> entries_ok A k (amap k s).
+Proof. intros [N1 N2 N3 E1 E2 E3 _ _]. destruct k; assumption. Qed.
+
+Lemma proto_app c l1 : forall s l2, proto c s (l1 ++ l2) -> proto c s l1 /\ proto c (run c s l1) l2.
 Proof.
-  induction l as [|e t IH]; intros s Hn Hni; [exact Hn|].
-  rewrite run_cons. destruct e as [p now|p|h now]; cbn [step fst added map] in *.
-  - apply IH; [|intros H; apply Hni; right; exact H].
-    destruct (add_amap c s p now k) as [E|E]; rewrite E; [exact Hn|].
-    rewrite aget_aset_other; [exact Hn|]. intros X. apply Hni. left. congruence.
-  - apply IH; [|exact Hni].
-    destruct (done_amap s p k) as [E|E]; rewrite E; [exact Hn|].
-    destruct (Z.eq_dec i (pid p)) as [X|X]; [subst i; apply aget_adel_same|].
-    rewrite aget_adel_other by exact X. exact Hn.
-  - apply IH; [|exact Hni]. destruct k; exact Hn.
+  induction l1 as [|e t IH]; intros s l2 H; [split; [exact I|exact H]|].
+  cbn [app proto] in H. destruct H as [H1 H2]. destruct (IH _ _ H2) as [H3 H4].
+  split; [cbn [proto]; split; assumption|]. rewrite run_cons. exact H4.
 Qed.
 
-(* p was handed to Add and later to Done *)
-Definition left_after (evs : list ev) (p : peer) : Prop :=
-  exists l1 t l2 l3, evs = l1 ++ Add p t :: l2 ++ Done p :: l3.
+(* a peer that was delivered to Done is disconnected (and stays so), and no admitted peer has been
+   delivered to Done: whichever of a peer's Add and Done is processed first *)
+Record Kinv (hist : list ev) (s : st) : Prop := {
+  k_gone : forall q, In (Done q) hist -> zmem (pid q) (gone s) = true;
+  k_live : forall k i q, In (i, q) (amap k s) -> ~ In (Done q) hist
+}.
 
-Lemma left_not_admitted c evs p :
-  wf evs -> left_after evs p -> aget (amap (pkind p) (run c init evs)) (pid p) = None.
+Lemma zmem_add_mono c s p now k : zmem k (gone s) = true -> zmem k (gone (fst (add_peer c s p now))) = true.
 Proof.
-  intros [Hnd _] [l1 [t [l2 [l3 E]]]]. subst evs.
-  replace (l1 ++ Add p t :: l2 ++ Done p :: l3) with ((l1 ++ Add p t :: l2) ++ Done p :: l3)
-    by (rewrite <- app_assoc; reflexivity).
-  rewrite run_app, run_cons. cbn [step fst].
-  apply absent_stays; [apply done_removes|].
-  rewrite !added_app in Hnd. cbn [added] in Hnd. rewrite added_app in Hnd. cbn [added] in Hnd.
-  rewrite !map_app in Hnd. cbn [map] in Hnd. rewrite map_app in Hnd.
-  apply NoDup_remove_2 in Hnd. intros X. apply Hnd.
-  apply in_or_app. right. apply in_or_app. right. exact X.
+  intros H.
+  assert (Ha : forall x, gone x = gone s -> zmem k (gone (fst (admit_peer c x p))) = true).
+  { intros x Hx. destruct (admit_cases c x p) as [E|[E _]]; rewrite E; cbn [fst].
+    - simp. rewrite zmem_cons, Hx, H. apply orb_true_r.
+    - rewrite gone_insert, Hx. exact H. }
+  destruct (add_peer_cases c s p now) as [[_ E]|[_ [[e [_ [_ E]]]|[[e [_ [_ E]]]|[_ E]]]]]; rewrite E; cbn [fst].
+  - exact H.
+  - simp. rewrite zmem_cons, H. apply orb_true_r.
+  - apply Ha. reflexivity.
+  - apply Ha. reflexivity.
+Qed.
+
+Lemma in_done_snoc q l e : In (Done q) (l ++ [e]) -> In (Done q) l \/ e = Done q.
+Proof. intros H. apply in_app_or in H. destruct H as [H|[H|[]]]; auto. Qed.
+
+Theorem kinv_run c evs : wf evs -> proto c init evs -> Kinv evs (run c init evs).
+Proof.
+  induction evs as [|e l IH] using rev_ind; intros Hwf Hp.
+  - constructor; [intros q []|]. intros k i q H. destruct k; destruct H.
+  - pose proof (wf_prefix _ _ Hwf) as Hwl.
+    destruct (proto_app c l init [e] Hp) as [Hp1 Hp2].
+    specialize (IH Hwl Hp1). destruct IH as [G L].
+    pose proof (inv_run c (l ++ [e]) Hwf) as HI. rewrite run_snoc in *.
+    set (s := run c init l) in *.
+    destruct e as [p now|p|h now|p]; cbn [step fst] in *.
+    + constructor.
+      * intros q Hq. apply in_done_snoc in Hq. destruct Hq as [Hq|Hq]; [|discriminate].
+        apply zmem_add_mono. exact (G q Hq).
+      * intros k i q Hin Hq. apply in_done_snoc in Hq. destruct Hq as [Hq|Hq]; [|discriminate].
+        destruct (add_amap c s p now k) as [E|[Hng E]]; rewrite E in Hin.
+        -- exact (L k i q Hin Hq).
+        -- destruct Hin as [Hin|Hin].
+           ++ inversion Hin. subst q. rewrite (G p Hq) in Hng. discriminate.
+           ++ apply In_adel in Hin. destruct Hin as [Hin _]. exact (L k i q Hin Hq).
+    + cbn [proto] in Hp2. destruct Hp2 as [Hpg _].
+      constructor.
+      * intros q Hq. rewrite done_gone. apply in_done_snoc in Hq. destruct Hq as [Hq|Hq]; [exact (G q Hq)|].
+        inversion Hq. subst q. exact Hpg.
+      * intros k i q Hin Hq. apply in_done_snoc in Hq. destruct Hq as [Hq|Hq].
+        -- destruct (done_amap s p k) as [E|E]; rewrite E in Hin.
+           ++ exact (L k i q Hin Hq).
+           ++ apply In_adel in Hin. destruct Hin as [Hin _]. exact (L k i q Hin Hq).
+        -- inversion Hq. subst q.
+           destruct (inv_amap _ _ k HI i p Hin) as [X1 [X2 _]]. subst k i.
+           apply In_aget in Hin. apply Hin. apply done_removes.
+    + constructor.
+      * intros q Hq. apply in_done_snoc in Hq. destruct Hq as [Hq|Hq]; [exact (G q Hq)|discriminate].
+      * intros k i q Hin Hq. apply in_done_snoc in Hq. destruct Hq as [Hq|Hq]; [|discriminate].
+        apply (L k i q); [destruct k; exact Hin|exact Hq].
+    + constructor.
+      * intros q Hq. apply in_done_snoc in Hq. destruct Hq as [Hq|Hq]; [|discriminate].
+        simp. rewrite zmem_cons, (G q Hq). apply orb_true_r.
+      * intros k i q Hin Hq. apply in_done_snoc in Hq. destruct Hq as [Hq|Hq]; [|discriminate].
+        apply (L k i q); [destruct k; exact Hin|exact Hq].
 Qed.
 
 Lemma cnt_zero f l : (forall i q, In (i, q) l -> f q = false) -> cnt f l = 0.
@@ -687,47 +808,47 @@ Proof.
   rewrite (H i q) by (left; reflexivity). reflexivity.
 Qed.
 
-(* "per-host counters return to zero when the corresponding peers have left" *)
+(* "per-host counters return to zero when the corresponding peers have left": every counted peer of
+   host h that was handed to Add has also been handed to Done - in whichever order *)
 Theorem host_counter_returns_to_zero c evs h :
-  wf evs ->
-  (forall p, In p (added evs) -> host p = h -> pkind p <> Persistent -> left_after evs p) ->
+  wf evs -> proto c init evs ->
+  (forall p, In p (added evs) -> host p = h -> pkind p <> Persistent -> In (Done p) evs) ->
   cget (ccount (run c init evs)) h = 0.
 Proof.
-  intros Hwf Hleft. rewrite (conn_count_exact c evs h Hwf). unfold counted_of_host.
+  intros Hwf Hp Hleft. rewrite (conn_count_exact c evs h Hwf). unfold counted_of_host.
   pose proof (inv_run c evs Hwf) as [N1 N2 N3 E1 E2 E3 _ _].
+  pose proof (kinv_run c evs Hwf Hp) as [_ L].
   rewrite !hcount_cnt, !cnt_zero; [reflexivity| |].
   - intros i q Hin. destruct (E2 _ _ Hin) as [X1 [X2 X3]].
     destruct (host q =? h) eqn:E; [|reflexivity]. apply Z.eqb_eq in E. exfalso.
-    assert (Hl : left_after evs q) by (apply Hleft; [exact X3|exact E|rewrite X2; discriminate]).
-    pose proof (left_not_admitted c evs q Hwf Hl) as Hn. rewrite X2 in Hn. cbn [amap] in Hn.
-    rewrite X1 in Hn. rewrite (nodupk_In_aget _ _ _ N2 Hin) in Hn. discriminate.
+    apply (L Outbound i q Hin). apply Hleft; [exact X3|exact E|rewrite X2; discriminate].
   - intros i q Hin. destruct (E1 _ _ Hin) as [X1 [X2 X3]].
     destruct (host q =? h) eqn:E; [|reflexivity]. apply Z.eqb_eq in E. exfalso.
-    assert (Hl : left_after evs q) by (apply Hleft; [exact X3|exact E|rewrite X2; discriminate]).
-    pose proof (left_not_admitted c evs q Hwf Hl) as Hn. rewrite X2 in Hn. cbn [amap] in Hn.
-    rewrite X1 in Hn. rewrite (nodupk_In_aget _ _ _ N1 Hin) in Hn. discriminate.
+    apply (L Inbound i q Hin). apply Hleft; [exact X3|exact E|rewrite X2; discriminate].
 Qed.
 
 (* "... and per-group counters" *)
 Theorem group_counter_returns_to_zero c evs g :
-  wf evs ->
-  (forall p, In p (added evs) -> group p = g -> pkind p <> Inbound -> left_after evs p) ->
+  wf evs -> proto c init evs ->
+  (forall p, In p (added evs) -> group p = g -> pkind p <> Inbound -> In (Done p) evs) ->
   cget (groups (run c init evs)) g = 0.
 Proof.
-  intros Hwf Hleft. rewrite (group_count_exact c evs g Hwf). unfold outbound_of_group.
+  intros Hwf Hp Hleft. rewrite (group_count_exact c evs g Hwf). unfold outbound_of_group.
   pose proof (inv_run c evs Hwf) as [N1 N2 N3 E1 E2 E3 _ _].
+  pose proof (kinv_run c evs Hwf Hp) as [_ L].
   rewrite !gcount_cnt, !cnt_zero; [reflexivity| |].
   - intros i q Hin. destruct (E3 _ _ Hin) as [X1 [X2 X3]].
     destruct (group q =? g) eqn:E; [|reflexivity]. apply Z.eqb_eq in E. exfalso.
-    assert (Hl : left_after evs q) by (apply Hleft; [exact X3|exact E|rewrite X2; discriminate]).
-    pose proof (left_not_admitted c evs q Hwf Hl) as Hn. rewrite X2 in Hn. cbn [amap] in Hn.
-    rewrite X1 in Hn. rewrite (nodupk_In_aget _ _ _ N3 Hin) in Hn. discriminate.
+    apply (L Persistent i q Hin). apply Hleft; [exact X3|exact E|rewrite X2; discriminate].
   - intros i q Hin. destruct (E2 _ _ Hin) as [X1 [X2 X3]].
     destruct (group q =? g) eqn:E; [|reflexivity]. apply Z.eqb_eq in E. exfalso.
-    assert (Hl : left_after evs q) by (apply Hleft; [exact X3|exact E|rewrite X2; discriminate]).
-    pose proof (left_not_admitted c evs q Hwf Hl) as Hn. rewrite X2 in Hn. cbn [amap] in Hn.
-    rewrite X1 in Hn. rewrite (nodupk_In_aget _ _ _ N2 Hin) in Hn. discriminate.
+    apply (L Outbound i q Hin). apply Hleft; [exact X3|exact E|rewrite X2; discriminate].
 Qed.
+
+(* a peer whose disconnect was processed first is simply ignored by Add (fix 1a05aed) *)
+Theorem gone_peer_not_admitted c s p now :
+  zmem (pid p) (gone s) = true -> step c s (Add p now) = (s, false).
+Proof. intros H. cbn [step]. unfold add_peer. rewrite H. reflexivity. Qed.
 
 (* ------------------------------------------------------------------ the hypotheses are satisfiable *)
 Module PeersExamples.
@@ -737,6 +858,7 @@ Definition p2 := mkPeer 2 3 1 Outbound.
 Definition p3 := mkPeer 3 7 2 Outbound.
 Definition p4 := mkPeer 4 7 2 Inbound.
 Definition p5 := mkPeer 5 3 1 Persistent.
+Definition p9 := mkPeer 9 3 1 Inbound.
 
 Ltac wf_tac :=
   split; [cbn; repeat constructor; cbn; intuition discriminate
@@ -745,14 +867,16 @@ Ltac wf_tac :=
            repeat (destruct Hq as [Hq|Hq]; [subst q|]); try contradiction;
            first [reflexivity | discriminate Hpid]].
 
-Definition p9 := mkPeer 9 3 1 Inbound.
-Definition hist1 := [Add p1 0; Add p2 0; Add p5 0; Ban 7 1; Add p3 2; Done p1; Done p9].
+Definition hist1 := [Add p1 0; Add p2 0; Add p5 0; Ban 7 1; Add p3 2; Disc p1; Done p1; Disc p9; Done p9].
 
 Example hist1_wf : wf hist1.
 Proof. wf_tac. Qed.
 
+Example hist1_proto : proto c0 init hist1.
+Proof. vm_compute. repeat split. Qed.
+
 (* count_le_max / per_host_le_max / conn_count_exact / group_count_exact on hist1:
-   three peers admitted (p1 left again), host 3 counts one (p2; the persistent p5 is exempt),
+   p1 left again, p3 was refused (banned host); host 3 counts one (p2; the persistent p5 is exempt),
    group 1 counts two (p2, p5) *)
 Example hist1_values :
   total (run c0 init hist1) = 2 /\ counted_of_host (run c0 init hist1) 3 = 1 /\
@@ -765,10 +889,10 @@ Proof. exact (conn_count_exact c0 hist1 3 hist1_wf). Qed.
 
 (* banned_not_admitted_before_expiry: host 7 banned at 1 for 10 units, p3 (host 7) knocks at 2 *)
 Example banned_ex :
-  step c0 (run c0 init ([Add p1 0; Add p2 0] ++ Ban 7 1 :: [Done p1])) (Add p3 2)
-  = (run c0 init ([Add p1 0; Add p2 0] ++ Ban 7 1 :: [Done p1]), false).
+  let s := run c0 init ([Add p1 0; Add p2 0] ++ Ban 7 1 :: [Disc p1; Done p1]) in
+  snd (step c0 s (Add p3 2)) = false /\ books (fst (step c0 s (Add p3 2))) = books s.
 Proof.
-  apply (banned_not_admitted_before_expiry c0 [Add p1 0; Add p2 0] [Done p1] 7 1 p3 2).
+  apply (banned_not_admitted_before_expiry c0 [Add p1 0; Add p2 0] [Disc p1; Done p1] 7 1 p3 2).
   - reflexivity.
   - cbn. lia.
   - cbn. lia.
@@ -781,43 +905,23 @@ Example readmitted_ex :
 Proof.
   apply admitted_after_expiry.
   - unfold hist1. wf_tac.
+  - intros q Hin. cbn in Hin. repeat (destruct Hin as [Hin|Hin]; try discriminate Hin); try contradiction;
+      inversion Hin; subst; discriminate.
   - intros t0 Hin. cbn in Hin. repeat (destruct Hin as [Hin|Hin]; try discriminate Hin); try contradiction.
     inversion Hin. subst. cbn. lia.
   - vm_compute. reflexivity.
   - vm_compute. reflexivity.
 Qed.
 
-(* host_counter_returns_to_zero: both counted peers of host 3 have left *)
-Definition hist2 := [Add p1 0; Add p2 0; Add p3 0; Done p2; Add p5 1; Done p1].
+(* host_counter_returns_to_zero: both counted peers of host 3 are done - p1 in the usual order, p2's
+   disconnect and Done are processed BEFORE its Add (which is then ignored) *)
+Definition hist2 := [Add p1 0; Disc p2; Done p2; Add p3 0; Add p2 0; Add p5 1; Disc p1; Done p1].
 Example zero_ex : cget (ccount (run c0 init hist2)) 3 = 0.
 Proof.
   apply host_counter_returns_to_zero.
   - unfold hist2. wf_tac.
+  - vm_compute. repeat split.
   - intros p Hin Hh Hk. cbn in Hin.
-    destruct Hin as [E|[E|[E|[E|[]]]]]; subst p; try discriminate Hh.
-    + exists [], 0, [Add p2 0; Add p3 0; Done p2; Add p5 1], []. reflexivity.
-    + exists [Add p1 0], 0, [Add p3 0], [Add p5 1; Done p1]. reflexivity.
-    + exfalso. apply Hk. reflexivity.
+    destruct Hin as [E|[E|[E|[E|[]]]]]; subst p; try discriminate Hh; try (exfalso; apply Hk; reflexivity); cbn; auto 10.
 Qed.
 End PeersExamples.
-
-(* ------------------------------------------------------------------ the Done-before-Add defect *)
-(* peerHandler's select may deliver the Done of a peer before its Add (both channels are ready when
-   a peer disconnects right after its version message).  Then the Add still admits the - already
-   disconnected - peer, and nothing ever removes it: "counters return to zero when the peers have
-   left" is false if "left" is read as "was delivered to Done", in whatever order. *)
-Theorem done_before_add_leaks_refuted :
-  ~ (forall c evs h, wf evs ->
-       (forall p, In p (added evs) -> host p = h -> pkind p <> Persistent -> In (Done p) evs) ->
-       cget (ccount (run c init evs)) h = 0).
-Proof.
-  intros H.
-  specialize (H PeersExamples.c0 [Done PeersExamples.p1; Add PeersExamples.p1 0] 3).
-  assert (W : wf [Done PeersExamples.p1; Add PeersExamples.p1 0]) by PeersExamples.wf_tac.
-  specialize (H W).
-  assert (L : forall p, In p (added [Done PeersExamples.p1; Add PeersExamples.p1 0]) -> host p = 3 ->
-              pkind p <> Persistent -> In (Done p) [Done PeersExamples.p1; Add PeersExamples.p1 0]).
-  { intros p Hin _ _. cbn in Hin. destruct Hin as [E|[]]. subst p. left. reflexivity. }
-  specialize (H L). vm_compute in H. discriminate H.
-Qed.
-
